@@ -1,6 +1,6 @@
 (* C08 -- The build is a function of its inputs: output bytes are deterministic. *)
 From Coq Require Import List ZArith Bool Permutation.
-From Verif Require Import Model.Build Proofs.Build_facts.
+From Verif Require Import Model.Build Proofs.Build_facts Proofs.Dest_facts.
 Import ListNotations.
 
 (* T1: the source list (set union, abspath, sorted) depends only on the *set* of arguments:
@@ -33,3 +33,22 @@ Theorem C08_value_fixed_point :
     (forall x, ~ In x (map e_out g) -> val x = read src x).
 Proof. exact (fun exec g src H => value_fixed_point exec g [] src H). Qed.
 Print Assumptions C08_value_fixed_point.
+
+(* T3: _dest_for_src -- within one run two different sources never share an intermediate
+   path, whatever the order in which they are first seen; the file name is kept *)
+Theorem C08_dests_injective :
+  forall (srcs : list (Z * Z)) (p1 p2 : Z) (d : nat * Z),
+    In (p1, d) (dests [] srcs) -> In (p2, d) (dests [] srcs) -> p1 = p2.
+Proof. exact dests_injective. Qed.
+Print Assumptions C08_dests_injective.
+Theorem C08_dests_keep_name :
+  forall (srcs : list (Z * Z)) (s : seen) (p : Z) (d : nat * Z),
+    In (p, d) (dests s srcs) -> exists nm, In (p, nm) srcs /\ snd d = nm.
+Proof. exact dests_keep_name. Qed.
+Print Assumptions C08_dests_keep_name.
+(* a source that already has a slot gets the same slot on every later lookup *)
+Theorem C08_dest_stable :
+  forall (s : seen) (path nm : Z) (n0 : nat), bounded s -> canonical s ->
+    lookup_seen n0 nm s = Some path -> fst (dest_for_src s path nm) = (n0, nm).
+Proof. exact dest_stable. Qed.
+Print Assumptions C08_dest_stable.
